@@ -124,7 +124,7 @@ def part_lattice(ctx, rng):
         if any(abs(a - ea) > 1e-12 or abs(b - eb) > 1e-12 for (a, b), (ea, eb) in zip(rg, row["range"])) or len(rg) != len(row["range"]):
             ctx.violation(key + ":mass_range", {"got": rg, "expected": row["range"]})
         wmax2 = float(np.prod([Fraction(*f) for f in row["facmax"]]))
-        if abs(float(g.m_wtMax) ** 2 - wmax2) > 1e-6 * wmax2:  # get_p evaluates python floats in single precision
+        if abs(float(g.m_wtMax) ** 2 - wmax2) > 1e-9 * wmax2:  # value of the bound: drift only (any valid bound serves the property)
             drift += 1
         exp, got = [], []
         for chain, fac, inum, iden in row["chains"]:
@@ -171,11 +171,10 @@ def part_lattice(ctx, rng):
 # scenarios -> masses
 # ==========================================================================
 def leaf_masses(pat):
-    """dyadic rationals (exactly representable in single precision, see notes: get_p converts python floats
-    through float32; with dyadic masses the strict tolerance applies to every generator without a two-body node)"""
+    """decimal masses (not representable in float32), passed as python floats like ConfigLoader / gen_mc do"""
     out = []
     for i, c in enumerate(pat):
-        out.append({"z": 0.0, "l": 0.125 + i / 64.0, "h": 1.0 + i / 8.0}[c])
+        out.append({"z": 0.0, "l": 0.1 + 0.013 * i, "h": 1.0 + 0.11 * i}[c])
     return out
 
 
@@ -184,8 +183,8 @@ def build_struct(scen):
     lm = leaf_masses(scen["pat"])
     S0 = sum(lm)
     nnodes = len(scen["flat"])
-    qtot = {"thr": 2.0**-9, "mid": 0.625, "big": 8.0}[scen["q"]] * (S0 + 0.5)
-    qe = float(max(np.floor(qtot / nnodes * 4096) / 4096, 2.0**-12))
+    qtot = {"thr": 2e-3, "mid": 0.6, "big": 8.0}[scen["q"]] * (S0 + 0.5)
+    qe = float(qtot / nnodes)
     it = iter(lm)
 
     def rec(shape):
@@ -258,7 +257,7 @@ class Runner:
         self.traces.append(S.phsp_trace(N, log))
         return m0, mi, lm, res, log
 
-    def physical(self, key, scen, N, m0, mi, lm, res, dyadic=True):
+    def physical(self, key, scen, N, m0, mi, lm, res):
         ctx = self.ctx
         leaves = flat_leaves(res)
         if len(leaves) != len(lm) or any(p.shape != (N, 4) for p in leaves):
@@ -266,7 +265,6 @@ class Runner:
             return None
         self.nevents += N
         tot = sum(leaves)
-        has2 = any(f["nt"] == 2 for f in scen["flat"])
         # conditioning: Lorentz factors of the partial sums (generator order: last k particles) and of the inner nodes
         gam = np.ones(N)
         acc = leaves[-1]
@@ -292,9 +290,9 @@ class Runner:
             worst["node_mass_%d" % j] = float(np.max(dd[ok])) if ok.any() else 0.0
         bad = {k: v for k, v in worst.items() if not (v <= TOL * m0)}
         if bad:
-            if (has2 or not dyadic) and all(v <= 1e-6 * m0 for v in bad.values()):
-                # get_p evaluates python-float arguments in single precision: every two-body generator, and every
-                # generator whose parent mass is not representable in float32, is accurate to ~1e-8 only
+            if all(v <= 1e-6 * m0 for v in bad.values()):
+                # signature of a break-up momentum evaluated in single precision (repaired in /repo 67e40a8):
+                # residuals of ~1e-8 m0; reported under the key of that defect
                 self.single_precision_hits += 1
                 ctx.violation(SINGLE_KEY, {"scenario": scen_key(scen), "m0": m0, "struct": repr(mi), "N": N, "deviations": bad, "tolerance": TOL * m0})
             else:
@@ -399,29 +397,57 @@ def part_weights(ctx, chosen, rng):
                 ctx.violation(scen_key(s) + ":mass_out_of_range", {"min": float(x.min()), "max": float(x.max()), "range": [a, b]})
     ctx.part("weights", proposals=nprop, largest_weight=top)
     # ---- cal_max_weight (optional tightening of the bound used by cal_max / cal_phsp_max)
+    # Known finding cal_max_weight:weight_above_one: the search starts at ONE random proposal and stops there when
+    # its weight is tiny.  Deterministic reproduction: the start proposal is pinned near the kinematic edge (every
+    # uniform number drawn inside cal_max_weight = 0.97, a value the generator can draw); then random starts,
+    # seeded from VERIF_SEED.  Every "weight above one after cal_max_weight" is reported under that one key.
     confs = [(3.0, [0.5, 0.3, 0.7]), (5.0, [1.0, 1.0, 1.0, 0.5]), (4.0, [0.5, 0.3, 0.0, 0.7, 0.2]), (10.0, [0.1, 0.2, 0.3, 0.1, 0.2, 0.3])]
     worst = 0.0
+    orig_uniform = tf.random.uniform
+
+    def pinned(shape, minval=0, maxval=None, dtype=tf.float32, seed=None, name=None):
+        return tf.fill(shape, tf.constant(0.97, dtype=dtype))
+
+    tf.random.set_seed(ctx.seed)
     for m0, ms in confs:
-        for rep in range(2 if quick else 5):
+        for rep in range(3 if quick else 6):
             try:
                 g = PhaseSpaceGenerator(m0, ms)
-                g.cal_max_weight()
+                if rep == 0:
+                    tf.random.uniform = pinned
+                try:
+                    g.cal_max_weight()
+                finally:
+                    tf.random.uniform = orig_uniform
                 w = np.asarray(g.get_weight(g.generate_mass(K)))
             except Exception as e:
                 ctx.violation("cal_max_weight:raise:n=%d" % len(ms), {"m0": m0, "masses": ms, "error": repr(e)})
                 break
             worst = max(worst, float(w.max()))
             ctx.count(K, distinct_key=("calmax", m0, len(ms)))
-            if w.max() > 1 + 1e-12:
-                ctx.violation("cal_max_weight:weight_above_one", {"m0": m0, "masses": ms, "largest_weight": float(w.max()), "n": len(ms)})
+            if not w.max() <= 1 + 1e-12:
+                ctx.violation("cal_max_weight:weight_above_one", {"m0": m0, "masses": ms, "largest_weight": float(w.max()), "n": len(ms), "start": "pinned at u=0.97" if rep == 0 else "random"})
     ctx.part("cal_max_weight", largest_weight_after=worst)
     # a chain with a two-body node
     from tf_pwa.phasespace import ChainGenerator
 
     try:
+        g2 = PhaseSpaceGenerator(3.0, [1.0, 1.0])
+        before = float(g2.m_wtMax)
+        g2.cal_max_weight()
+        if not abs(float(g2.m_wtMax) - before) <= 1e-12 * before or int(g2.generate(7)[0].shape[0]) != 7:
+            ctx.violation("cal_max_weight:two_body_node:bound_changed", {"before": before, "after": float(g2.m_wtMax)})
         cg = ChainGenerator(5.0, ((3.0, (1.0, 1.0)), 1.0, 0.5))
-        cg.cal_max_weight()
+        tf.random.uniform = pinned  # the three-body top node is searched too: keep its start fixed
+        try:
+            cg.cal_max_weight()
+        finally:
+            tf.random.uniform = orig_uniform
+        res = cg.generate(7)
+        if any(x.shape != (7, 4) for x in flat_leaves(res)):
+            ctx.violation("cal_max_weight:two_body_node:count", {"shapes": [list(x.shape) for x in flat_leaves(res)]})
     except Exception as e:
+        tf.random.uniform = orig_uniform
         ctx.violation("cal_max_weight:two_body_node:raise", {"struct": "(5.0, ((3.0, (1.0, 1.0)), 1.0, 0.5))", "error": repr(e)})
 
 
@@ -630,6 +656,34 @@ MODEL4 = {
 }
 
 
+def part_decimal(ctx):
+    """the configurations on which the single-precision break-up momentum was found (repaired: 67e40a8)"""
+    from tf_pwa.phasespace import PhaseSpaceGenerator, generate_phsp
+
+    worst = 0.0
+    for m0, ms in [(1.0, [0.3, 0.4]), (4.6, [2.00698, 2.01028, 0.13957]), (4.6, [2.00698, 2.01028]), (0.3, [0.0, 0.0, 0.0, 0.0])]:
+        for N in (5, 1000):
+            p = [np.asarray(x) for x in PhaseSpaceGenerator(m0, ms).generate(N)]
+            dev = float(np.max(np.abs(sum(p) - np.array([m0, 0, 0, 0]))))
+            for x, m in zip(p, ms):
+                dev = max(dev, float(np.max(np.abs(x[:, 0] - np.sqrt(np.sum(x[:, 1:] ** 2, axis=1) + m * m)))))
+            worst = max(worst, dev / m0)
+            ctx.count(N, distinct_key=("decimal", m0, len(ms)))
+            if not dev <= TOL * m0:
+                key = SINGLE_KEY if dev <= 1e-6 * m0 else "PhaseSpaceGenerator:m0=%g:n=%d:physical" % (m0, len(ms))
+                ctx.violation(key, {"call": "PhaseSpaceGenerator(%r, %r).generate(%d)" % (m0, ms, N), "largest_residual": dev, "tolerance": TOL * m0})
+    (a, b), c = generate_phsp(3.0, ((1.0, (0.3, 0.4)), 0.5), 1000)
+    a, b, c = np.asarray(a), np.asarray(b), np.asarray(c)
+    s = a + b
+    dev = max(float(np.max(np.abs(s[:, 0] - np.sqrt(np.sum(s[:, 1:] ** 2, axis=1) + 1.0)))), float(np.max(np.abs(a + b + c - np.array([3.0, 0, 0, 0])))))
+    worst = max(worst, dev / 3.0)
+    ctx.count(1000, distinct_key=("decimal", "nested"))
+    if not dev <= TOL * 3.0:
+        key = SINGLE_KEY if dev <= 1e-6 * 3.0 else "generate_phsp:3.0->((1.0->0.3,0.4),0.5):physical"
+        ctx.violation(key, {"call": "generate_phsp(3.0, ((1.0, (0.3, 0.4)), 0.5), 1000)", "largest_residual": dev, "tolerance": TOL * 3.0})
+    ctx.part("decimal_masses", largest_residual_over_m0=worst)
+
+
 def part_apps(ctx):
     from tf_pwa.applications import gen_mc
     from tf_pwa.config_loader import ConfigLoader
@@ -754,6 +808,7 @@ def run(ctx):
     ctx.log("weights done")
     part_flat(ctx, scen, rng, runner)
     ctx.log("flatness done")
+    part_decimal(ctx)
     part_apps(ctx)
     part_traces(ctx, runner)
     ctx.cov["rule"] = (
@@ -767,7 +822,7 @@ def run(ctx):
     )
     ctx.assume("numpy.Inf shim of the harness (tf_pwa.applications / config_loader do not import under NumPy 2 otherwise)")
     ctx.assume("flatness and weight <= 1 on random proposals are statistical / sampled statements (level: exploration); false-alarm probability <= 1e-9 per check")
-    ctx.assume("mass values: massless = 0, light = 0.1 + 0.013 i, heavy = 1 + 0.11 i; Q = (2e-3 | 0.6 | 8) * (sum + 0.5), shared equally by the nodes of a nesting")
+    ctx.assume("mass values (python floats): massless = 0, light = 0.1 + 0.013 i, heavy = 1 + 0.11 i; Q = (2e-3 | 0.6 | 8) * (sum + 0.5), shared equally by the nodes of a nesting")
 
 
 def replay(ctx, path):
